@@ -210,6 +210,15 @@ def gen_ops(rng, spec, variants, length, allow):
                 {'op': 'force', 'chain': c, 'task': sl, 'del': False, 'pick': pk},
                 {'op': 'reset', 'chain': c, 'task': sl, 'pick': pk},
                 {'op': 'value', 'chain': c, 'task': sl, 'failing': [], 'pick': pk}]
+    # directed: compute, then force with delete_data AND recompute while the recomputation of that very task fails — the stored result is
+    # gone all the same (it was to be deleted), a later chain computes it again
+    if 'force' in allow and 'fail' in allow and live and not has_dir and rng.random() < 0.3:
+        c, sl = rng.choice(live), rng.choice(slugs)
+        ops += [{'op': 'value', 'chain': c, 'task': sl, 'failing': [], 'pick': 0},
+                {'op': 'chain_force', 'chain': c, 'tasks': [sl], 'del': True, 'recompute': True, 'failing': [sl]}]
+        nc = len(chains)
+        ops.append({'op': 'build', 'variant': 0}); chains.append(nc)
+        ops.append({'op': 'value', 'chain': nc, 'task': sl, 'failing': [], 'pick': 0})
     # a family with a swapped pair of configurations: both join tasks are requested, one after the other, on the one data directory
     pair = [i for i, v in enumerate(variants) if v.get('swap_join')]
     if len(pair) >= 2 and rng.random() < 0.8:
